@@ -3,7 +3,7 @@
    C08: ClassAds survive the wire; the decoder's literal shortcuts agree with the full parser;
    the three receivers consume the same bytes. *)
 From Coq Require Import List NArith ZArith Bool.
-From Cedar Require Import Lib.Bytes Model.Literal Proofs.C08.
+From Cedar Require Import Lib.Bytes Model.Msg Model.AdWire Model.Literal Proofs.C08 Proofs.C08Wire.
 Import ListNotations.
 
 (* For EVERY value text (any bytes), whatever strconv says about the range of a real:
@@ -32,3 +32,45 @@ Example C08_shortcut_examples :
   try_literal false [x22; xff; x22] = None /\
   lex_literal [x22; x61; x22; x20; x22; x62; x22] = Some (LStr [x61; x62]).
 Proof. vm_compute. repeat split; reflexivity. Qed.
+
+(* The three receivers over one wire layout.
+
+   Plaintext stream (no key, not encrypting), ANY bytes in ANY framing (honest or not):
+   whenever GetClassAdRaw succeeds, SkipClassAdRaw succeeds too and leaves the reader
+   in exactly the same state - same buffer, same frames still unread, same flags: it
+   consumed exactly the same bytes.  (Secret markers included: with no key the field
+   that follows a marker is read in the clear by both.) *)
+Theorem C08_same_bytes_plain : forall (t : treader) (x : received) (t1 : treader),
+  t_key t = false /\ t_enc t = false ->
+  get_ad_raw t = (t1, MOk x) -> skip_ad t = (t1, MOk tt).
+Proof. exact plain_same_bytes. Qed.
+Print Assumptions C08_same_bytes_plain.
+
+(* ANY stream state (no key / encrypting / keyed but not encrypting, secret markers
+   and sealed frames included), any bytes, any framing, any parser: if the parsing
+   receiver (GetClassAd) and the raw-text receiver (GetClassAdRaw) both succeed, they
+   end in the same reader state and saw the same expression strings and type names. *)
+Theorem C08_same_bytes_get_raw : forall (parses : bytes -> bool) (t t1 : treader) (x1 : received) (t2 : treader) (x2 : received),
+  get_ad parses t = (t1, MOk x1) -> get_ad_raw t = (t2, MOk x2) -> t1 = t2 /\ x1 = x2.
+Proof. exact get_raw_agree. Qed.
+Print Assumptions C08_same_bytes_get_raw.
+
+(* one plaintext string, the core of the statement: GetString, SkipString and the
+   marker-aware skip leave identical readers, and the latter reports exactly whether
+   the string GetString would have returned is the secret marker *)
+Theorem C08_same_bytes_string : forall r : reader,
+  fst (get_string false r) = fst (skip_string_marker false r) /\
+  fst (get_string false r) = fst (skip_string false r) /\
+  (forall s, snd (get_string false r) = MOk s ->
+             snd (skip_string_marker false r) = MOk (bytes_eqb s secret_marker)).
+Proof.
+  intro r. destruct (plain_string_same r) as (A & B & _ & _ & E). auto.
+Qed.
+Print Assumptions C08_same_bytes_string.
+
+(* the old-ClassAd fallback never invents a string out of an expression: it refuses any
+   text with an unescaped interior quote, and is the identity on escape-free text *)
+Theorem C08_oldstring_plain : forall s : bytes,
+  forallb plain_byte s = true -> decode_old_string s = Some s.
+Proof. exact old_string_plain. Qed.
+Print Assumptions C08_oldstring_plain.
